@@ -65,6 +65,8 @@ def _txt(draw, tier):
                 default_precision=draw(st.sampled_from([False, False, True])),
                 comment=draw(st.sampled_from(COMMENTS)), comment_lines=[list(c) for c in comments],
                 ignore_empty=draw(st.booleans()), edges=edges, preexisting=draw(st.booleans()),
+                scalar_type=draw(st.sampled_from(["float", "float", "int", "np.float64",
+                                                  "np.int64", "np.float32", "0d"])),
                 e0=draw(st.integers(-100, 100)) / 4.0, e1=draw(st.integers(101, 300)) / 4.0)
 
 
@@ -74,6 +76,8 @@ def _string(draw, tier):
     return dict(kind="string", values=vals, sep=draw(st.sampled_from(SEPS)),
                 sorted_flag=draw(st.booleans()),
                 edges=draw(st.sampled_from(["pair", "scalar"])),
+                scalar_type=draw(st.sampled_from(["float", "float", "int", "np.float64",
+                                                  "np.int64", "np.float32", "0d"])),
                 e0=draw(st.integers(-100, 100)) / 4.0, e1=draw(st.integers(101, 300)) / 4.0)
 
 
@@ -159,13 +163,33 @@ def nontrivial(case):
     return case["edges"] == "scalar" or case["sep"] != " "
 
 
+def _scalar_edge(case):
+    """the end of the recording as the caller may hold it: a Python number, a numpy
+    scalar (e.g. the result of spikes.max() or np.ceil) or a 0-d array - the value is
+    always exactly e1 (a multiple of 1/4)"""
+    v = case["e1"]
+    t = case.get("scalar_type", "float")
+    whole = float(v).is_integer()
+    if t == "int" and whole:
+        return int(v)
+    if t == "np.int64" and whole:
+        return np.int64(v)
+    if t == "np.float64":
+        return np.float64(v)
+    if t == "np.float32":
+        return np.float32(v)
+    if t == "0d":
+        return np.array(v)
+    return v
+
+
 def run_case(case, ctx):
     import pyspike
     k = case["kind"]
     if k == "string":
         vals = case["values"]
         s = case["sep"].join(repr(float(v)) for v in vals)
-        edges = case["e1"] if case["edges"] == "scalar" else [case["e0"], case["e1"]]
+        edges = _scalar_edge(case) if case["edges"] == "scalar" else [case["e0"], case["e1"]]
         st_ = ctx.call("spike_train_from_string", pyspike.spike_train_from_string, s, edges,
                        sep=case["sep"], is_sorted=case["sorted_flag"])
         exp = list(vals) if case["sorted_flag"] else sorted(vals)
@@ -210,7 +234,7 @@ def _run_txt(case, ctx, pyspike, path):
         lines.insert(min(pos, len(lines)), case["comment"] + text)
     with open(path, "w") as f:
         f.write("".join(l + "\n" for l in lines))
-    edges = case["e1"] if case["edges"] == "scalar" else (case["e0"], case["e1"])
+    edges = _scalar_edge(case) if case["edges"] == "scalar" else (case["e0"], case["e1"])
     loaded = ctx.call("load", pyspike.load_spike_trains_from_txt, path, edges,
                       separator=case["sep"], comment=case["comment"],
                       ignore_empty_lines=case["ignore_empty"])
